@@ -1,7 +1,7 @@
 (* Property C10 - chain: concatenation in order with strictly sequential evaluation. *)
 From Coq Require Import List Arith Bool.
 Import ListNotations.
-Require Import ScanFull InstsFull Pass C11Groups PassProofs C02Join C02Merge PassLedger.
+Require Import ScanFull InstsFull Pass C11Groups PassProofs Monitors C02Join C02Merge PassLedger.
 
 (* [Pc s fin t]: the sequential automaton runC (state = index of the current input; a poll must be of the current input, only an End
    answer advances it) accepts the poll list and ends in the model's index; the results are exactly the items the inputs answered, in that
@@ -23,3 +23,11 @@ Example C10_witness :
   let scs := [[{| fires := []; answer := AItem 1 |}; {| fires := []; answer := AEnd |}]; [{| fires := []; answer := AItem 2 |}; {| fires := []; answer := AEnd |}]] in
   results (strip (tr _ (chain_world scs [OPollFresh; OPollFresh; OPollFresh]))) = [OSome None [1]; OSome None [2]; ONone].
 Proof. vm_compute. reflexivity. Qed.
+
+(* the same statement as a boolean predicate over the observable trace (chain_b, Proofs/Monitors.v; a state-free consequence of the invariant above):
+   the function that runner/montool.ml evaluates on every trace of the crate *)
+Theorem C10_sequential_predicate_holds scs ops :
+  let w := chain_world scs ops in
+  dropped _ w = false -> chain_b (strip (tr _ w)) = true.
+Proof. exact (chain_b_holds scs ops). Qed.
+Print Assumptions C10_sequential_predicate_holds.
